@@ -1,41 +1,47 @@
 #!/usr/bin/env python3
-"""Applies every seeded defect under /verif/seeded to a scratch copy of /repo and runs every quick check on it.
+"""Applies every seeded defect under seeded/ to a scratch copy of /repo and runs every quick check on it.
 Writes seeded/MATRIX.json (seed -> property -> failing rule instances) and fills meta.json 'detected_by'.
-Nothing under /repo is touched; the scratch copy and its evidence are removed afterwards."""
-import json, os, shutil, subprocess, sys, tempfile, glob
+Nothing under /repo is touched; scratch copies and their evidence are removed afterwards. VP_MATRIX_JOBS seeds at a time."""
+import json, os, shutil, subprocess, sys, tempfile
+from concurrent.futures import ThreadPoolExecutor
 V = os.path.dirname(os.path.dirname(os.path.abspath(__file__)))
 props = [json.loads(l)["id"] for l in open(os.path.join(V, "properties.jsonl"))]
 only = sys.argv[1:]
 seeds = sorted(d for d in os.listdir(os.path.join(V, "seeded")) if os.path.isdir(os.path.join(V, "seeded", d)) and (not only or d in only))
-scratch = tempfile.mkdtemp(prefix="vp-matrix-")
-matrix = {}
+root = tempfile.mkdtemp(prefix="vp-matrix-")
 mp = os.path.join(V, "seeded", "MATRIX.json")
-if os.path.exists(mp) and only:
-    matrix = json.load(open(mp))
-try:
-    for sd in seeds:
-        repo = os.path.join(scratch, "repo")
-        shutil.rmtree(repo, ignore_errors=True)
-        os.makedirs(repo)
-        subprocess.check_call(["rsync", "-a", "--exclude", "target", "/repo/node", repo + "/"])
-        r = subprocess.run(["git", "apply", os.path.join(V, "seeded", sd, "patch.diff")], cwd=repo, capture_output=True, text=True)
-        if r.returncode != 0:
-            matrix[sd] = {"error": "patch does not apply to the current tree: " + r.stderr[:200]}
-            print(sd, "PATCH DOES NOT APPLY")
-            continue
-        env = dict(os.environ, VP_REPO=repo, VP_EVIDENCE_DIR=os.path.join(scratch, "evidence"))
-        row = {}
-        for p in props:
-            out = subprocess.run([os.path.join(V, "check"), p, "quick"], env=env, capture_output=True, text=True)
-            viol = [l.strip()[len("violated: ["):].split("]")[0] for l in out.stdout.splitlines() if l.strip().startswith("violated: [")]
-            if out.returncode != 0:
-                row[p] = {"exit": out.returncode, "instances": viol[:8]}
-        matrix[sd] = row
-        meta_p = os.path.join(V, "seeded", sd, "meta.json")
-        meta = json.load(open(meta_p))
-        meta["detected_by"] = {p: v["instances"] for p, v in row.items()}
-        json.dump(meta, open(meta_p, "w"), indent=1)
-        print(sd, "->", {p: len(v["instances"]) for p, v in row.items()})
-        json.dump(matrix, open(mp, "w"), indent=1)
-finally:
+matrix = json.load(open(mp)) if (os.path.exists(mp) and only) else {}
+
+
+def one(sd):
+    scratch = tempfile.mkdtemp(prefix="s-", dir=root)
+    repo = os.path.join(scratch, "repo")
+    os.makedirs(repo)
+    subprocess.check_call(["rsync", "-a", "--exclude", "target", "/repo/node", repo + "/"])
+    r = subprocess.run(["git", "apply", os.path.join(V, "seeded", sd, "patch.diff")], cwd=repo, capture_output=True, text=True)
+    if r.returncode != 0:
+        return sd, {"error": "patch does not apply to the current tree: " + r.stderr[:200]}
+    env = dict(os.environ, VP_REPO=repo, VP_EVIDENCE_DIR=os.path.join(scratch, "evidence"))
+    row = {}
+    for p in props:
+        out = subprocess.run([os.path.join(V, "check"), p, "quick"], env=env, capture_output=True, text=True)
+        viol = [l.strip()[len("violated: ["):].split("]")[0] for l in out.stdout.splitlines() if l.strip().startswith("violated: [")]
+        if out.returncode != 0:
+            row[p] = {"exit": out.returncode, "instances": viol[:8]}
     shutil.rmtree(scratch, ignore_errors=True)
+    return sd, row
+
+
+try:
+    with ThreadPoolExecutor(max_workers=int(os.environ.get("VP_MATRIX_JOBS", "4"))) as pool:
+        for sd, row in pool.map(one, seeds):
+            matrix[sd] = row
+            if "error" not in row:
+                meta_p = os.path.join(V, "seeded", sd, "meta.json")
+                meta = json.load(open(meta_p))
+                meta["detected_by"] = {p: v["instances"] for p, v in row.items()}
+                json.dump(meta, open(meta_p, "w"), indent=1)
+            print(sd, "->", {p: len(v["instances"]) for p, v in row.items()} if "error" not in row else row, flush=True)
+            json.dump(matrix, open(mp, "w"), indent=1, sort_keys=True)
+finally:
+    shutil.rmtree(root, ignore_errors=True)
